@@ -131,8 +131,12 @@ Definition n_y : node := mkNode (PElem 0) 12 (7, 7) [CElem 2] [] [] None.
 Definition n_c3 : node := mkNode (PElem 1) 11 (3, 3) [] [] [] None.
 Definition W3 : world := mkW [n_root3; n_y; n_c3].
 
+(* AFTER THE FIX (the mask is read from the recalculated type, whose indices these are): the state W3 no longer panics *)
+Theorem mixup_state_fixed : f_check TT W3 0 2 = Val ([], 2).
+Proof. vm_compute. reflexivity. Qed.
+(* the statement kept from before the fix; the only panics left in f_check are dangling ids (here: file id 5 does not exist) *)
 Theorem mixup_panics : exists T w f v site, f_check T w f v = Pan site.
-Proof. exists TT, W3, 0, 2. eexists. vm_compute. reflexivity. Qed.
+Proof. exists TT, W3, 5, 2. eexists. vm_compute. reflexivity. Qed.
 
 (* in version 1 the same state is fine *)
 Example mixup_state_ok_in_v1 : f_check TT W3 0 1 = Val ([], 1).
